@@ -4,8 +4,8 @@ from fractions import Fraction
 from ..core import f2b, b2f, run_harness, run_driver
 from .. import samples as S, sample_checks as SC, graphs, gen, kin
 
-MODULE = "Momtrop.Props.C01Sector"
-THEOREMS = ["Momtrop.C01.det_momentum_map", "Momtrop.C01.inverse_cdf_law", "Momtrop.C01.xi_power_law", "Momtrop.C01.reduction", "Momtrop.C01.chain_law", "Momtrop.C01.dens_closed", "Momtrop.C01.abel_tropical", "Momtrop.C01.dens_tropical", "Momtrop.C01.sector_density_times_prob", "Momtrop.C01.sector_expectation", "Momtrop.C01.tropical_sampling"]
+MODULE = "Momtrop.Props.C03Mono"
+THEOREMS = ["Momtrop.C01.det_momentum_map", "Momtrop.C01.inverse_cdf_law", "Momtrop.C01.xi_power_law", "Momtrop.C01.reduction", "Momtrop.C01.chain_law", "Momtrop.C01.dens_closed", "Momtrop.C01.abel_tropical", "Momtrop.C01.dens_tropical", "Momtrop.C01.sector_density_times_prob", "Momtrop.C01.sector_expectation", "Momtrop.C01.tropical_sampling", "Momtrop.C01.consistent_along", "Momtrop.C01.tropical_sampling_table", "Momtrop.C01.spanT_mono", "Momtrop.C01.removalFacts_of_loops"]
 RULE = ("(i) end-to-end correspondence of sample (all fields) on multi-loop, massive, unequal-weight, D=1..6, non-trivial-routing inputs; "
         "(ii) SUPPORTING TEST, not a proof: fixed-seed Monte Carlo means against closed forms - mean(jacobian) for the massive tadpole, "
         "equal-mass bubble at zero momentum and the two-tadpole product (two routings), and mean(jacobian * g) with "
